@@ -63,6 +63,8 @@ class Ctx:
         self._interp = None
         self.cur = None
         self.cache = {}
+        from . import ef
+        ef.PROGRAM = program
 
     @property
     def interp(self):
